@@ -19,7 +19,8 @@
 
    Main theorems
      spec_*_val          the textbook table values are the values of the normal forms (Euler's formulas as hypotheses)
-     term_sound          term F orc zic m = Some X  ->  LPair [[m]] (dom) X        (under forms_ok F, oracle contract)
+     term_sound          term F orc zic m = Some X  ->  LPair [[m]] (dom) X        (under forms_ok F, oracle contract;
+                         hypotheses: exp additive, Euler's formulas with j*j = -1, a real subfield [isr] ordered by [neg])
      doit_sound          the same for sums;   L_linear: doit (e1 ++ e2) = doit e1 + doit e2, term (a·m) = a · term m
      cache_transparent   any history of transforms: cached and uncached results coincide
    Axiom-free. *)
@@ -470,6 +471,15 @@ Definition spec_rstep (a s : K) : K := a * (1 - ex (- (s / a))) / sq s.
 Definition spec_func (v : nat) (a b s : K) : K := ex (s * b / a) * Fn v (s / a) / a.
 Definition Icz (zic : bool) (v m : nat) : K := if zic then 0 else Ic v m.
 Definition spec_deriv (v k : nat) (zic : bool) (s : K) : K := fpow s k * Fn v s - ic_sum K (Icz zic) v k s.
+
+(* the specification's own closed forms: the model run with them is the SPECIFICATION of the transformer (used
+   by the correspondence evaluation as an exact oracle independent of the translated formulas) *)
+Definition spec_forms : forms :=
+  Forms (fun c s => c / s) (fun c a s => c / (s - a))
+        (fun iscos hasu al be w p zeta s => spec_sincos iscos hasu al be w p zeta s)
+        (fun n m => Nat.leb n (S m))
+        spec_rect spec_tri spec_ramp spec_rstep spec_func spec_deriv
+        (fun c X s => c * X / s) (fun c A B => c * A * B).
 
 (* what the generated closed forms have to satisfy (proved in props/C09_entry_*.v for the current source) *)
 Record forms_ok : Prop := FormsOk {
